@@ -74,8 +74,13 @@ class Run:
         self.floors[rule] = minimum
         got = self._r(rule)[what]
         if got < minimum:
-            raise AnalysisError('rule %s matched %d %s, below the floor %d confirmed by hand'
-                                % (rule, got, what, minimum))
+            msg = 'rule %s matched %d %s, below the floor %d confirmed by hand' % (rule, got, what, minimum)
+            # a shortfall that is explained -- the rule already reported a violation or an undecided construct and stopped
+            # early -- is not a vanished anchor; only a silent shortfall means the analysis no longer sees the code
+            if any(f['rule'] == rule for f in self.findings) or self._r(rule)['undecided'] > 0:
+                self.notes.append('NOTE: ' + msg + ' (explained by the reported findings / undecided constructs of the rule)')
+                return
+            raise AnalysisError(msg)
 
     def use_file(self, relpath):
         self.files.add(relpath)
